@@ -38,6 +38,26 @@ ENTRIES = {
         "technique": "symbolic TLA+ model checked by TLC; TLC-generated (configuration, mutation) cases with spec-decided "
                      "verdicts replayed into Rust with real keys and hashes",
     },
+    "C02": {
+        "text": "spec/HvChain.tla models headers as [id, chain, height, time, validators, next validators, parent, commit "
+                "kinds] with the id as perfect hash. Pair cases: a trusted header with 1..3 validators (thorough 1..4, "
+                "powers {1,2,3}) against an untrusted one whose validator set is any non-empty subset of the trusted keys "
+                "plus a stranger, every assignment of absent / nil / valid / forged commit entries (the exact 1/3 "
+                "boundary), height offsets -1, 0, +1, +2, +3, same / other chain id, five time classes (before, equal, "
+                "after, 7 s and 13 s ahead of the real clock), right / wrong parent, right / wrong next validators. "
+                "Range cases: every list of up to 3 headers (thorough 4) over a pool made of an honest chain with a "
+                "validator rotation (the surviving validator holding exactly 1/3 or 2/3), forks from every height, "
+                "headers signed by an attacker's own set, with a non-increasing time or another chain id, from two "
+                "trusted heads. The spec derives MustReject from the statement's only-if clauses and MustAccept when all "
+                "hold; TLC checks the model of the Rust code against it; every case is rebuilt with real keys, hashes "
+                "and times relative to the real clock and run through verify, verify_adjacent, verify_range, "
+                "verify_adjacent_range and VerifiedExtendedHeaders::try_from.",
+        "design_ref": "7 C02",
+        "note": "The clock-drift bound is only probed 3 s on either side of 10 s (real clock). Untrusted headers are "
+                "internally consistent (validators_hash matches the set); verify* does not re-validate by design.",
+        "technique": "symbolic TLA+ model checked by TLC; TLC-generated pair and range cases with spec-decided verdicts "
+                     "replayed into Rust with real keys, hashes and clock-relative times",
+    },
     "C03": {
         "text": "spec/HeaderVerify.tla models commits symbolically (signature = [key, vote message], "
                 "verification = equality). TLC enumerates validator sets of 1..3 members (thorough 1..5) with "
@@ -140,8 +160,49 @@ def run_c01(ck):
                        "squares wider than 32 use synthetic DAH roots (no erasure coding)"]
 
 
-RUNNERS = {"C01": run_c01, "C03": run_c03}
-MODELS = {"C01": "validate", "C03": "commit"}
+# --------------------------------------------------------------------------------------- C02
+def _c02_runs(ck):
+    allg = '{"pair_adj", "pair_skip", "pair_basic", "range", "range_empty"}'
+    rng = '{"range", "range_empty"}'
+    if ck.quick:
+        return [("a", {"MaxM": 3, "MaxMAdj": 2, "Palette": "{1, 2, 3}", "NH": 4, "MaxLen": 3, "Rot": 1, "Grps": allg}),
+                ("b", {"MaxM": 1, "MaxMAdj": 1, "Palette": "{1}", "NH": 4, "MaxLen": 3, "Rot": 2, "Grps": rng})]
+    return [("a", {"MaxM": 4, "MaxMAdj": 3, "Palette": "{1, 2, 3}", "NH": 5, "MaxLen": 3, "Rot": 1, "Grps": allg}),
+            ("b", {"MaxM": 1, "MaxMAdj": 1, "Palette": "{1}", "NH": 5, "MaxLen": 3, "Rot": 2, "Grps": rng}),
+            ("c", {"MaxM": 1, "MaxMAdj": 1, "Palette": "{1}", "NH": 4, "MaxLen": 4, "Rot": 2, "Grps": rng})]
+
+
+def run_c02(ck):
+    hb = ck.build("h-header")
+    for tag, consts in _c02_runs(ck):
+        mc_cfg = ck.cfg_with("MC_HvChain.cfg", consts, name=f"MC_HvChain_{tag}.cfg")
+        req = ["DecideRange", "DecideRangeEmpty"]
+        if tag == "a":
+            req += ["DecidePairAdjacent", "DecidePairSkipping", "DecidePairBasic"]
+        ck.tlc_mc("MC_HvChain", mc_cfg, tag=f"mc_{tag}", required_actions=req)
+        gen_cfg = ck.cfg_with("Gen_HvChain.cfg", consts, name=f"Gen_HvChain_{tag}.cfg")
+        cases, _ = ck.tlc_gen("Gen_HvChain", gen_cfg, f"cases_{tag}.ndjson", tag=f"gen_{tag}", count_stats=False)
+        s = ck.harness(hb, ["replay", "chain", cases, "--seed", ck.seed], f"replay_{tag}")
+        ck.absorb(s, classify)
+        ex = s.get("extra", {})
+        if "try_from_observations" not in ex:
+            ck.cov["coverage_gaps"].append("h-header built without feature `node`: VerifiedExtendedHeaders::try_from not observed")
+    ck.cov["exhaustive"] = True
+    ck.cov["rule"] = ("pairs: every (trusted set, untrusted set overlap, commit entry kinds, height offset, chain id, time "
+                      "class, parent, next-validators) combination of the three pair families, each through verify and "
+                      "verify_adjacent; ranges: every list up to MaxLen over the pool (honest chain with a validator "
+                      "rotation, forks from every height, attacker-set / stale-time / other-chain headers) from two trusted "
+                      "heads, each through verify_range, verify_adjacent_range and VerifiedExtendedHeaders::try_from; "
+                      "non-trivial = distinct pair with >= 2 trusted validators, or list of >= 2 headers mixing branches "
+                      "or fully accepted")
+    ck.assumptions += ["ed25519 unforgeable, SHA-256 collision free (symbolic crypto)",
+                       "header times are laid out relative to the real clock with a 3 s margin around the 10 s drift bound",
+                       "headers handed to verify* are internally consistent (validators_hash = hash of the set) as the "
+                       "functions' documentation requires"]
+
+
+RUNNERS = {"C01": run_c01, "C02": run_c02, "C03": run_c03}
+MODELS = {"C01": "validate", "C02": "chain", "C03": "commit"}
 
 
 def run(ck):
